@@ -457,6 +457,15 @@ class BasinProxyFeature(np.lib.mixins.NDArrayOperatorsMixin):
     def __len__(self):
         return len(self.basinmap)
 
+    def max(self, *args, **kwargs):
+        return np.nanmax(self.__array__())
+
+    def mean(self, *args, **kwargs):
+        return np.nanmean(self.__array__())
+
+    def min(self, *args, **kwargs):
+        return np.nanmin(self.__array__())
+
 
 def basin_priority_sorted_key(bdict: Dict):
     """Yield a sorting value for a given basin that can be used with `sorted`
